@@ -8,53 +8,53 @@ namespace Adaptix.Morph
 open Adaptix.Py
 
 /-- the run raised something (a LoadError subclass or any other exception) -/
-def Fails {α : Type} (o : Outcome α) : Prop := o.isErr = true ∨ o.isEscape = true
+def Raises {α : Type} (o : Outcome α) : Prop := o.isErr = true ∨ o.isEscape = true
 
 /-- agreement of two runs up to fuel: same value, or both raise -/
-def DSim {α : Type} (o₁ o₂ : Outcome α) : Prop :=
-  o₁ = .diverge ∨ o₂ = .diverge ∨ (∃ v, o₁ = .ok v ∧ o₂ = .ok v) ∨ (Fails o₁ ∧ Fails o₂)
+def DumpSim {α : Type} (o₁ o₂ : Outcome α) : Prop :=
+  o₁ = .diverge ∨ o₂ = .diverge ∨ (∃ v, o₁ = .ok v ∧ o₂ = .ok v) ∨ (Raises o₁ ∧ Raises o₂)
 
-theorem modes_dsim_refl {α : Type} (o : Outcome α) : DSim o o := by
+theorem modes_dsim_refl {α : Type} (o : Outcome α) : DumpSim o o := by
   cases o with
   | ok v => exact Or.inr (Or.inr (Or.inl ⟨v, rfl, rfl⟩))
   | err e => exact Or.inr (Or.inr (Or.inr ⟨Or.inl rfl, Or.inl rfl⟩))
   | escape e => exact Or.inr (Or.inr (Or.inr ⟨Or.inr rfl, Or.inr rfl⟩))
   | diverge => exact Or.inl rfl
 
-theorem modes_dsim_symm {α : Type} {o₁ o₂ : Outcome α} (h : DSim o₁ o₂) : DSim o₂ o₁ := by
+theorem modes_dsim_symm {α : Type} {o₁ o₂ : Outcome α} (h : DumpSim o₁ o₂) : DumpSim o₂ o₁ := by
   rcases h with h | h | ⟨v, h1, h2⟩ | ⟨h1, h2⟩
   · exact Or.inr (Or.inl h)
   · exact Or.inl h
   · exact Or.inr (Or.inr (Or.inl ⟨v, h2, h1⟩))
   · exact Or.inr (Or.inr (Or.inr ⟨h2, h1⟩))
 
-theorem modes_itemsRel_dsim_symm {a b : List (Option TrailEl × Outcome Val)} (h : ItemsRel DSim a b) :
-    ItemsRel DSim b a := by
+theorem modes_itemsRel_dsim_symm {a b : List (Option TrailEl × Outcome Val)} (h : ItemsRel DumpSim a b) :
+    ItemsRel DumpSim b a := by
   induction h with
-  | nil => exact All₂.nil
-  | cons hxy _ ih => exact All₂.cons ⟨hxy.1.symm, modes_dsim_symm hxy.2⟩ ih
+  | nil => exact Pointwise₂.nil
+  | cons hxy _ ih => exact Pointwise₂.cons ⟨hxy.1.symm, modes_dsim_symm hxy.2⟩ ih
 
 /-! ### "all items succeeded" for the three folds -/
 
 /-- every item is `ok` with the listed value -/
 abbrev AllOk (vs : List Val) (a : List (Option TrailEl × Outcome Val)) : Prop :=
-  All₂ (fun v x => x.2 = Outcome.ok v) vs a
+  Pointwise₂ (fun v x => x.2 = Outcome.ok v) vs a
 
 /-- every item is `ok` with the listed value or ran out of fuel -/
 abbrev AllOkDiv (vs : List Val) (a : List (Option TrailEl × Outcome Val)) : Prop :=
-  All₂ (fun v x => x.2 = Outcome.ok v ∨ x.2 = Outcome.diverge) vs a
+  Pointwise₂ (fun v x => x.2 = Outcome.ok v ∨ x.2 = Outcome.diverge) vs a
 
 theorem modes_seqDisable_ok {a : List (Option TrailEl × Outcome Val)} {vs : List Val}
     (h : seqDisable a = .ok vs) : AllOk vs a := by
   induction a generalizing vs with
-  | nil => simp [seqDisable] at h; subst h; exact All₂.nil
+  | nil => simp [seqDisable] at h; subst h; exact Pointwise₂.nil
   | cons x rest ih =>
     obtain ⟨el, o⟩ := x
     cases o with
     | ok y =>
       simp only [seqDisable] at h
       cases hr : seqDisable rest with
-      | ok ys => rw [hr] at h; simp at h; subst h; exact All₂.cons rfl (ih hr)
+      | ok ys => rw [hr] at h; simp at h; subst h; exact Pointwise₂.cons rfl (ih hr)
       | err e => rw [hr] at h; simp at h
       | escape e => rw [hr] at h; simp at h
       | diverge => rw [hr] at h; simp at h
@@ -65,14 +65,14 @@ theorem modes_seqDisable_ok {a : List (Option TrailEl × Outcome Val)} {vs : Lis
 theorem modes_seqFirst_ok {a : List (Option TrailEl × Outcome Val)} {vs : List Val}
     (h : seqFirst a = .ok vs) : AllOk vs a := by
   induction a generalizing vs with
-  | nil => simp [seqFirst] at h; subst h; exact All₂.nil
+  | nil => simp [seqFirst] at h; subst h; exact Pointwise₂.nil
   | cons x rest ih =>
     obtain ⟨el, o⟩ := x
     cases o with
     | ok y =>
       simp only [seqFirst] at h
       cases hr : seqFirst rest with
-      | ok ys => rw [hr] at h; simp at h; subst h; exact All₂.cons rfl (ih hr)
+      | ok ys => rw [hr] at h; simp at h; subst h; exact Pointwise₂.cons rfl (ih hr)
       | err e => rw [hr] at h; simp at h
       | escape e => rw [hr] at h; simp at h
       | diverge => rw [hr] at h; simp at h
@@ -84,11 +84,11 @@ theorem modes_sweepAll_ok {a : List (Option TrailEl × Outcome Val)}
     (hd : (sweepAll a).diverged = false) (hu : (sweepAll a).unexpected = false)
     (he : (sweepAll a).errs = []) : AllOk (sweepAll a).vals a := by
   induction a with
-  | nil => exact All₂.nil
+  | nil => exact Pointwise₂.nil
   | cons x rest ih =>
     obtain ⟨el, o⟩ := x
     cases o with
-    | ok y => simp only [sweepAll] at hd hu he ⊢; exact All₂.cons rfl (ih hd hu he)
+    | ok y => simp only [sweepAll] at hd hu he ⊢; exact Pointwise₂.cons rfl (ih hd hu he)
     | err e => simp [sweepAll] at he
     | escape e => simp [sweepAll] at hu
     | diverge => simp [sweepAll] at hd
@@ -187,27 +187,27 @@ theorem modes_seqMode_okDiv (m : DebugTrail) {a : List (Option TrailEl × Outcom
 
 /-! ### the generic two-mode argument -/
 
-theorem modes_fails_of_ne {α : Type} {o : Outcome α} (hd : o ≠ .diverge) (hok : ∀ v, o ≠ .ok v) : Fails o := by
+theorem modes_fails_of_ne {α : Type} {o : Outcome α} (hd : o ≠ .diverge) (hok : ∀ v, o ≠ .ok v) : Raises o := by
   cases o with
   | ok v => exact absurd rfl (hok v)
   | err e => exact Or.inl rfl
   | escape e => exact Or.inr rfl
   | diverge => exact absurd rfl hd
 
-theorem modes_not_fails_ok {α : Type} {v : α} : ¬ Fails (Outcome.ok v) := by
+theorem modes_not_fails_ok {α : Type} {v : α} : ¬ Raises (Outcome.ok v) := by
   intro h; rcases h with h | h <;> simp [Outcome.isErr, Outcome.isEscape] at h
 
-theorem modes_not_fails_diverge {α : Type} : ¬ Fails (Outcome.diverge : Outcome α) := by
+theorem modes_not_fails_diverge {α : Type} : ¬ Raises (Outcome.diverge : Outcome α) := by
   intro h; rcases h with h | h <;> simp [Outcome.isErr, Outcome.isEscape] at h
 
 theorem modes_allOkDiv_of_dsim {a b : List (Option TrailEl × Outcome Val)} {vs : List Val}
-    (h : ItemsRel DSim a b) (hok : AllOk vs a) : AllOkDiv vs b := by
+    (h : ItemsRel DumpSim a b) (hok : AllOk vs a) : AllOkDiv vs b := by
   induction h generalizing vs with
-  | nil => cases hok; exact All₂.nil
+  | nil => cases hok; exact Pointwise₂.nil
   | @cons x y as bs hxy _ ih =>
     cases hok with
     | @cons v _ vs' _ hx hrest =>
-      refine All₂.cons ?_ (ih hrest)
+      refine Pointwise₂.cons ?_ (ih hrest)
       rcases hxy.2 with h1 | h1 | ⟨w, h1, h2⟩ | ⟨h1, _⟩
       · rw [hx] at h1; simp at h1
       · exact Or.inr h1
@@ -220,8 +220,8 @@ theorem modes_allOkDiv_of_dsim {a b : List (Option TrailEl × Outcome Val)} {vs 
 theorem modes_dsim_fold {β : Type} (m₁ m₂ : DebugTrail) {a b : List (Option TrailEl × Outcome Val)}
     (φ ψ : List Val → List Val) (k₁ k₂ : List Val → Outcome β)
     (hab : ∀ vs, AllOk vs a → AllOkDiv (φ vs) b) (hba : ∀ vs, AllOk vs b → AllOkDiv (ψ vs) a)
-    (hk : ∀ vs, DSim (k₁ vs) (k₂ (φ vs))) :
-    DSim (bindO (seqModeDump m₁ a) k₁) (bindO (seqModeDump m₂ b) k₂) := by
+    (hk : ∀ vs, DumpSim (k₁ vs) (k₂ (φ vs))) :
+    DumpSim (bindO (seqModeDump m₁ a) k₁) (bindO (seqModeDump m₂ b) k₂) := by
   cases h1 : seqModeDump m₁ a with
   | diverge => exact Or.inl rfl
   | ok vs =>
@@ -246,16 +246,16 @@ theorem modes_dsim_fold {β : Type} (m₁ m₂ : DebugTrail) {a b : List (Option
     | escape e' => exact Or.inr (Or.inr (Or.inr ⟨Or.inr rfl, Or.inr rfl⟩))
 
 theorem modes_dsim_fold_same {β : Type} (m₁ m₂ : DebugTrail) {a b : List (Option TrailEl × Outcome Val)}
-    (h : ItemsRel DSim a b) (k : List Val → Outcome β) :
-    DSim (bindO (seqModeDump m₁ a) k) (bindO (seqModeDump m₂ b) k) :=
+    (h : ItemsRel DumpSim a b) (k : List Val → Outcome β) :
+    DumpSim (bindO (seqModeDump m₁ a) k) (bindO (seqModeDump m₂ b) k) :=
   modes_dsim_fold m₁ m₂ id id k k (fun _ hok => modes_allOkDiv_of_dsim h hok)
     (fun _ hok => modes_allOkDiv_of_dsim (modes_itemsRel_dsim_symm h) hok) (fun _ => modes_dsim_refl _)
 
 /-! ### dumpers -/
 
 theorem modes_dsim_dumpIter (m₁ m₂ : DebugTrail) (s : Bool) (asList : Bool) (e e' : Val → Outcome Val)
-    (x : Val) (h : ∀ y, DSim (e y) (e' y)) :
-    DSim (dumpIter ⟨m₁, s⟩ asList e x) (dumpIter ⟨m₂, s⟩ asList e' x) := by
+    (x : Val) (h : ∀ y, DumpSim (e y) (e' y)) :
+    DumpSim (dumpIter ⟨m₁, s⟩ asList e x) (dumpIter ⟨m₂, s⟩ asList e' x) := by
   rw [modes_dumpIter_eq, modes_dumpIter_eq]
   cases x.iterElems with
   | none => exact modes_dsim_refl _
@@ -263,8 +263,8 @@ theorem modes_dsim_dumpIter (m₁ m₂ : DebugTrail) (s : Bool) (asList : Bool) 
     exact modes_dsim_fold_same m₁ m₂ (modes_itemsRel_idx (modes_forall₂_map _ _ _ fun y _ => h y)) _
 
 theorem modes_dsim_dumpTuple (m₁ m₂ : DebugTrail) (s : Bool) (F G : Ty → Val → Outcome Val)
-    (elems : List Ty) (x : Val) (h : ∀ t y, DSim (F t y) (G t y)) :
-    DSim (dumpTuple ⟨m₁, s⟩ (elems.map F) x) (dumpTuple ⟨m₂, s⟩ (elems.map G) x) := by
+    (elems : List Ty) (x : Val) (h : ∀ t y, DumpSim (F t y) (G t y)) :
+    DumpSim (dumpTuple ⟨m₁, s⟩ (elems.map F) x) (dumpTuple ⟨m₂, s⟩ (elems.map G) x) := by
   rw [modes_dumpTuple_eq, modes_dumpTuple_eq]
   cases lenOf x with
   | none => exact modes_dsim_refl _
@@ -278,8 +278,8 @@ theorem modes_dsim_dumpTuple (m₁ m₂ : DebugTrail) (s : Bool) (F G : Ty → V
           (modes_itemsRel_idx (modes_forall₂_zipApply _ _ _ _ fun p _ => h p.1 p.2)) _
 
 theorem modes_dsim_dumpModel (m₁ m₂ : DebugTrail) (s : Bool) (fields : List Field)
-    (fd fd' : Field → Val → Outcome Val) (x : Val) (h : ∀ f y, DSim (fd f y) (fd' f y)) :
-    DSim (dumpModel ⟨m₁, s⟩ fields fd x) (dumpModel ⟨m₂, s⟩ fields fd' x) := by
+    (fd fd' : Field → Val → Outcome Val) (x : Val) (h : ∀ f y, DumpSim (fd f y) (fd' f y)) :
+    DumpSim (dumpModel ⟨m₁, s⟩ fields fd x) (dumpModel ⟨m₂, s⟩ fields fd' x) := by
   rw [modes_dumpModel_eq, modes_dumpModel_eq]
   split
   · exact modes_dsim_fold_same m₁ m₂
@@ -287,8 +287,8 @@ theorem modes_dsim_dumpModel (m₁ m₂ : DebugTrail) (s : Bool) (fields : List 
   · exact modes_dsim_refl _
 
 theorem modes_dsim_dumpUnion (DW : DumpWorld) (cases : List Ty) (keys : List String)
-    (dm dm' : Ty → Val → Outcome Val) (x : Val) (h : ∀ t y, DSim (dm t y) (dm' t y)) :
-    DSim (dumpUnion DW cases keys dm x) (dumpUnion DW cases keys dm' x) := by
+    (dm dm' : Ty → Val → Outcome Val) (x : Val) (h : ∀ t y, DumpSim (dm t y) (dm' t y)) :
+    DumpSim (dumpUnion DW cases keys dm x) (dumpUnion DW cases keys dm' x) := by
   rcases modes_dumpUnion_shape DW cases keys x with ⟨o, ho⟩ | ⟨t, ht⟩
   · rw [ho, ho]; exact modes_dsim_refl _
   · rw [ht, ht]; exact h t x
@@ -297,10 +297,10 @@ theorem modes_dsim_dumpUnion (DW : DumpWorld) (cases : List Ty) (keys : List Str
 
 theorem modes_swapPairs_dict {P : Val → Outcome Val → Prop} (vf : Bool) (k v : Val → Outcome Val)
     (kvs : List (Val × Val)) {vs : List Val}
-    (h : All₂ (fun w x => P w x.2) vs (dictItems vf k v kvs)) :
-    All₂ (fun w x => P w x.2) (swapPairs vs) (dictItems (!vf) k v kvs) := by
+    (h : Pointwise₂ (fun w x => P w x.2) vs (dictItems vf k v kvs)) :
+    Pointwise₂ (fun w x => P w x.2) (swapPairs vs) (dictItems (!vf) k v kvs) := by
   induction kvs generalizing vs with
-  | nil => cases h; exact All₂.nil
+  | nil => cases h; exact Pointwise₂.nil
   | cons p rest ih =>
     obtain ⟨a, b⟩ := p
     cases vf
@@ -310,14 +310,14 @@ theorem modes_swapPairs_dict {P : Val → Outcome Val → Prop} (vf : Bool) (k v
         cases h' with
         | cons h2 h'' =>
           simp only [swapPairs, dictItems, Bool.not_false, if_true]
-          exact All₂.cons h2 (All₂.cons h1 (ih h''))
+          exact Pointwise₂.cons h2 (Pointwise₂.cons h1 (ih h''))
     · simp only [dictItems, if_true] at h
       cases h with
       | cons h1 h' =>
         cases h' with
         | cons h2 h'' =>
           simp only [swapPairs, dictItems, Bool.not_true, Bool.false_eq_true, if_false]
-          exact All₂.cons h2 (All₂.cons h1 (ih h''))
+          exact Pointwise₂.cons h2 (Pointwise₂.cons h1 (ih h''))
 
 theorem modes_buildDict_swap' (vf : Bool) (flat : List Val) (acc : List (Val × Val)) :
     buildDict (!vf) (swapPairs flat) acc = buildDict vf flat acc := by
@@ -334,15 +334,15 @@ theorem modes_buildDict_swap' (vf : Bool) (flat : List Val) (acc : List (Val × 
       | a :: b :: r, hl => exact absurd rfl (hl a b r)
 
 theorem modes_dsim_dumpDict (m₁ m₂ : DebugTrail) (s : Bool) (k v k' v' : Val → Outcome Val) (x : Val)
-    (hk : ∀ y, DSim (k y) (k' y)) (hv : ∀ y, DSim (v y) (v' y)) :
-    DSim (dumpDict ⟨m₁, s⟩ k v x) (dumpDict ⟨m₂, s⟩ k' v' x) := by
+    (hk : ∀ y, DumpSim (k y) (k' y)) (hv : ∀ y, DumpSim (v y) (v' y)) :
+    DumpSim (dumpDict ⟨m₁, s⟩ k v x) (dumpDict ⟨m₂, s⟩ k' v' x) := by
   rw [modes_dumpDict_eq, modes_dumpDict_eq]
   split
   · rename_i kvs
     simp only
     generalize (m₁ == DebugTrail.disable) = vf₁
     generalize (m₂ == DebugTrail.disable) = vf₂
-    have hrel : ∀ vf, ItemsRel DSim (dictItems vf k v kvs) (dictItems vf k' v' kvs) :=
+    have hrel : ∀ vf, ItemsRel DumpSim (dictItems vf k v kvs) (dictItems vf k' v' kvs) :=
       fun vf => modes_itemsRel_dict _ _ _ _ _ _ fun p _ => ⟨hk p.1, hv p.2⟩
     by_cases hvf : vf₁ = vf₂
     · subst hvf
@@ -365,7 +365,7 @@ theorem modes_dsim_dumpDict (m₁ m₂ : DebugTrail) (s : Bool) (k v k' v' : Val
 /-! ### the agreement -/
 
 theorem modes_dsim_dump (W : World) (DW : DumpWorld) (m₁ m₂ : DebugTrail) (s : Bool) (n : Nat) :
-    ∀ (T : Ty) (x : Val), DSim (dump W DW ⟨m₁, s⟩ n T x) (dump W DW ⟨m₂, s⟩ n T x) := by
+    ∀ (T : Ty) (x : Val), DumpSim (dump W DW ⟨m₁, s⟩ n T x) (dump W DW ⟨m₂, s⟩ n T x) := by
   induction n with
   | zero => intro T x; exact Or.inl rfl
   | succ n ih =>
